@@ -4,7 +4,6 @@ SPEC = {
     'repo_srcs': ['N2kMsg.cpp', 'N2kStream.cpp', 'N2kMessages.cpp', 'N2kTimer.cpp', 'N2kGroupFunction.cpp',
                   'N2kGroupFunctionDefaultHandlers.cpp', 'NMEA2000.cpp', 'N2kDeviceList.cpp'],
     'variants': ['', 't32'],
-    'cxxflags': ['-fno-sanitize=enum'],
     'lean_modules': ['N2k.Props.C07'], 'props_files': ['N2k/Props/C07.lean'],
     'translators': ['pgn_tables'],
     'case_start': ['reset'],
@@ -12,7 +11,7 @@ SPEC = {
     'trusted_base': ["the theorems are the index/bound/lifetime facts of the receive-path models (C02 fast packet; C10 ISO-TP, C18 device "
                      "list, C09 group function as they are integrated), each tied to the code by its own correspondence run",
                      "runtime counterpart: grammar-based frame histories against the real node under ASan+UBSan "
-                     "(-fsanitize=address,undefined,float-cast-overflow,float-divide-by-zero; the enum-range check is off, see DESIGN 0) "
+                     "(-fsanitize=address,undefined,float-cast-overflow,float-divide-by-zero; enum-range check included) "
                      "with a 20 s per-op watchdog; this part is exploration, not proof"],
     'assumptions': ["driver contract: CANGetFrame delivers DLC <= 8 and an 8-byte buffer", "default compile-time configuration",
                     "memory safety below the level of array indices and object lifetime is observed by the sanitizers only"],
